@@ -6,7 +6,7 @@
    merge order itself is compared on every run with an independent reading of the property
    through the trace parameter. *)
 From RV Require Import Model.Node Spec.DeepMerge Proofs.WfFacts Proofs.NamesFacts Proofs.NodeFacts Proofs.WalkFold Proofs.NodeTotal
-     Proofs.Refinement Proofs.NodeRefines.
+     Proofs.Refinement Proofs.NodeRefines Proofs.Twin Proofs.TwinStack.
 
 (** Each class is merged the first time it is reached and never again: the record of merged
     classes never holds a name twice. *)
@@ -125,6 +125,27 @@ Theorem C01_rendered_parameters_are_the_deep_merge_of_the_walk :
        forall g v, deep_merge (S g) (docs ++ [ry; params_doc ndoc]) = SOk v -> unflag (VMap (n_params r)) = v).
 Proof. exact node_params_are_the_deep_merge. Qed.
 Eval cbv in "ASSUMPTIONS-OF C01_rendered_parameters_are_the_deep_merge_of_the_walk"%string. Print Assumptions C01_rendered_parameters_are_the_deep_merge_of_the_walk.
+
+(** ... and, with C04, when the documents DO contain references: the rendered parameters are the
+    deep merge of that walk-ordered stack with every reference inlined ([ytw m]: reference strings
+    replaced by the YAML of what they render to against the merged parameters [m]); the
+    specification reports no conflict and no constant violation on it. *)
+Theorem C01_rendered_parameters_are_the_deep_merge_of_the_inlined_walk :
+  forall fi cfg tbl f n ndoc loc meta rc r,
+    node_of_yaml loc ndoc = Ok n -> as_reclass cfg meta = Ok rc ->
+    node_render f fi cfg tbl n meta = Ok r ->
+    exists seen docs ry m,
+      NoDup seen /\ Forall2 (class_params cfg tbl) seen docs /\ reclass_doc cfg meta = Some ry /\
+      merge_layers_try (docs ++ [ry; params_doc ndoc]) = Ok m /\
+      (Forall clean_layer (docs ++ [ry; params_doc ndoc]) ->
+       forall ys', Forall layer_ok ys' -> Forall2 (ytw m) (docs ++ [ry; params_doc ndoc]) ys' ->
+       forall g, match deep_merge (S g) ys' with
+                 | SOk v => unflag (VMap (n_params r)) = v
+                 | SFuel => True
+                 | SErr _ => False
+                 end).
+Proof. exact node_params_are_the_deep_merge_of_the_inlined_walk. Qed.
+Eval cbv in "ASSUMPTIONS-OF C01_rendered_parameters_are_the_deep_merge_of_the_inlined_walk"%string. Print Assumptions C01_rendered_parameters_are_the_deep_merge_of_the_inlined_walk.
 
 (** Non-vacuity: a diamond with a reference-bearing include; the class list and the trace show
     post-order, once, node last. *)
